@@ -47,10 +47,21 @@ class Lin:
         return " + ".join(parts)
 
 
+_COND_RES = [None]
+
+
 def linearize(e, subst=None, ren=None):
-    """Lin or None.  subst: {var name: Lin} applied to variable refs."""
+    """Lin or None.  subst: {var name: Lin} applied to variable refs.  When _COND_RES[0] is a
+    dict {condition node id: truth}, ?: sub-expressions with a known condition are resolved."""
     if e is None:
         return None
+    if e["k"] == "cond" and _COND_RES[0]:
+        c = e["c"]
+        while c["k"] == "cast":
+            c = c["e"]
+        t = _COND_RES[0].get(c["id"])
+        if t is not None:
+            return linearize(e["t"] if t else e["f"], subst, ren)
     v = cval(e)
     if v is not None and e["k"] != "ref":
         return Lin(k=v)
